@@ -13,6 +13,11 @@ the real output only):
             build_conflicting_ids.  Oracle: multiset of (action, document) pairs over all bulks of all
             workers = multiset of corpus documents; no bulk over size; pairing; per-worker stop count;
             conflict ids ⊆ ids emitted earlier by the same worker.
+  spec      a track specification (the dict json.load gives) -> real TrackSpecificationReader -> set_absolute_data_path ->
+            operation_parameters of the loaded bulk task -> the `files` treatment.  Corpus-level defaults x document-level
+            settings (absent / true / false) of includes-action-and-meta-data, targets on both levels, 0-3 indices or 0-2
+            data streams, rejected specifications.  The files are written the way their most specific declaration says;
+            model op `spec` (resolveCorpora) says what the document sets are loaded as and feeds the worker model.
   reader    params.Slice(io.MmapSource, offset, count) + the three readers on real files for arbitrary
             offset / count / bulk / batch (count beyond the file, odd counts …).
   gen       GenerateActionMetaData with explicit draw functions (probability / recency / update).
@@ -573,204 +578,419 @@ def check_stop_count(ctx, ref, got, pctf, compare_bodies):
 
 
 def run_files(ctx, case):
+    from esrally.track import params, track
+
+    tmp = tempfile.mkdtemp(prefix="c03-")
+    try:
+        files, targets, rc, mc = build_tree(tmp, case)
+
+        def make_source(extra=None):
+            return params.BulkIndexParamSource(track.Track(name="t", corpora=rc), dict(worker_params(case), **(extra or {})))
+
+        drive_and_judge(ctx, case, files, targets, mc, make_source, "files", [])
+    finally:
+        shutil.rmtree(tmp, ignore_errors=True)
+
+
+def drive_and_judge(ctx, case, files, targets, mc, make_source, prefix, extra_sig):
+    """the workers of the case on parameter sources from `make_source` (one per worker): model comparison + direct oracle.
+    files: fidx -> physical lines; mc: per corpus the document sets ("meta" = whether the FILE has action lines)"""
     import random
 
     from esrally.track import params, track
     from esrally import exceptions
 
+    # BulkIndexParamSource.used_corpora drops corpora without documents
+    keep = [i for i, c in enumerate(mc) if sum(d["docs"] for d in c) > 0]
+    # (the spec stream hands over the flags the Lean model of _create_corpora resolved: "m_meta" / "m_ds")
+    mcorp = [[{"lines": d["lines"], "docs": d["docs"], "meta": d.get("m_meta", d["meta"]), "ds": d.get("m_ds", d["ds"])} for d in mc[i]] for i in keep]
+    # the driver numbers files consecutively over the corpora it is given
+    remap = {}
+    j = 0
+    for i in keep:
+        for d in mc[i]:
+            remap[j] = d["fidx"]
+            j += 1
+    mfiles = {j: files[f] for j, f in remap.items()}
+    mtargets = {j: targets[f] for j, f in remap.items()}
+    n = case["n"]
+    rng = random.Random(case["seed"])
+    prob_float = None
+    if case["conflicts"] != "none":
+        prob_float = 25.0 if case.get("defaults") else float(Fraction(case["prob"]))
+    # document line (raw, and as canonical JSON) -> (file, document number) where that is unique in the whole corpus
+    def unique_index(keyfn):
+        idx, dup = {}, set()
+        for f, ls in files.items():
+            step = 2 if any(d["fidx"] == f and d["meta"] for c in mc for d in c) else 1
+            for q, l in enumerate(ls[step - 1::step]):
+                try:
+                    key = keyfn(l)
+                except ValueError:
+                    continue
+                if key in idx or key in dup:
+                    dup.add(key)
+                    idx.pop(key, None)
+                else:
+                    idx[key] = (f, q)
+        # only files all of whose documents can be located
+        full = {f for f, ls in files.items()
+                if sum(1 for v in idx.values() if v[0] == f) == len(ls) // (2 if any(d["fidx"] == f and d["meta"] for c in mc for d in c) else 1)}
+        return {k: v for k, v in idx.items() if v[0] in full}
+
+    line_pos = unique_index(lambda l: l)
+    json_pos = unique_index(lambda l: json.dumps(json.loads(l), sort_keys=True))
+    eligible = {v[0] for v in line_pos.values()} & {v[0] for v in json_pos.values()}
+    line_pos = {k: v for k, v in line_pos.items() if v[0] in eligible}
+    json_pos = {k: v for k, v in json_pos.items() if v[0] in eligible}
+    all_pairs = []      # (action line or None, document line) over all workers — for the exactly-once oracle
+    total_docs = sum(d["docs"] for c in mc for d in c)
+    any_bulk = False
+    kinds = set()
+    tags = []
+    outcome = "ok"
+    for (s, e) in case["workers"]:
+        rec = Rec(rng, prob_float)
+        with patched_random(rec):
+            src = make_source()
+            limit = 3 * (total_docs + 5) + 50
+            crash = None
+            try:
+                order, calls, events, unfinished, crash = drive_worker(rng, src, s, e, n, limit if not case.get("looped") else min(limit, 60))
+                err = None
+            except (exceptions.RallyError, IndexError, ZeroDivisionError) as ex:
+                err = type(ex).__name__
+        if rec.bad:
+            raise HarnessError("; ".join(rec.bad))
+        margs = dict(model_cfg(case), corpora=mcorp, n=n, partitions=order if err is None else list(range(s, e + 1)),
+                     calls=calls if err is None else [s], oracle=rec.as_json())
+        m = ctx.model("bulk", "worker", margs)
+        tags.append(m.get("tags"))
+        if err is not None:
+            outcome = err
+            if m.get("err") != err:
+                ctx.diff("worker-error", m, err)
+            continue
+        if crash is not None:
+            outcome = crash
+            if m.get("err") != crash:
+                ctx.diff("worker-error", m, crash)
+            report_zero_division(ctx, {"clients": [s, e], "of": n, "calls": calls})
+            continue
+        if "err" in m:
+            ctx.diff("worker-error", m, "no error")
+            continue
+        if unfinished and not case.get("looped"):
+            ctx.fail("does-not-stop", "clients still get bulks after 3x the corpus size", None, len(calls))
+        mout = m["r"]["out"]
+        real_bulks = [(c, p) for c, p in events if p is not None]
+        if [c for c, _ in real_bulks] != [x[0] for x in mout]:
+            ctx.diff("who-gets-a-bulk", [x[0] for x in mout], [c for c, _ in real_bulks])
+        seen = {}  # target index -> fresh ids emitted so far by this worker
+        order_of = {}  # file -> positions of its document lines in the order this worker emitted them
+        for k, (c, p) in enumerate(real_bulks):
+            any_bulk = True
+            blines = split_body(p["body"])
+            if k < len(mout):
+                mdocs, mitems = mout[k][1]
+                d = None
+                if mdocs != p["bulk-size"]:
+                    d = f"bulk {k}: bulk-size model {mdocs}, impl {p['bulk-size']}"
+                d = d or check_items(ctx, f"bulk {k}", mitems, blines, mfiles, mtargets)
+                if d:
+                    ctx.diff("bulk-body", d, None)
+            # ---- direct oracle on the real bulk -------------------------------------------------
+            if p["bulk-size"] > case["bulk"] or p["bulk-size"] <= 0:
+                ctx.fail("bulk-over-size", "bulk-size outside (0, configured bulk size]", case["bulk"], p["bulk-size"])
+            if len(blines) != 2 * p["bulk-size"]:
+                ctx.fail("pairing", "body is not bulk-size (action, document) pairs", 2 * p["bulk-size"], len(blines))
+                continue
+            for q in range(0, len(blines), 2):
+                a, dline = blines[q], blines[q + 1]
+                try:
+                    aj = json.loads(a)
+                except ValueError:
+                    aj = None
+                if not (isinstance(aj, dict) and len(aj) == 1 and list(aj)[0] in ("index", "create", "update")
+                        and isinstance(aj[list(aj)[0]], dict) and a.endswith(b"\n")):
+                    ctx.fail("pairing", "line at an even position of the body is not an action-and-meta-data line", None, repr(a))
+                    continue
+                act = list(aj)[0]
+                kinds.add(act)
+                if act == "update":
+                    try:
+                        dj = json.loads(dline)
+                        inner = dj["doc"]
+                    except (ValueError, KeyError, TypeError):
+                        ctx.fail("pairing", "update action not followed by a {\"doc\": …} line", None, repr(dline))
+                        continue
+                    all_pairs.append((None, json.dumps(inner, sort_keys=True)))
+                    pos = json_pos.get(json.dumps(inner, sort_keys=True))
+                    if pos is not None:
+                        order_of.setdefault(pos[0], []).append(pos[1])
+                else:
+                    all_pairs.append((a if "_id" in aj[act] and case["conflicts"] == "none" else None, dline))
+                    pos = line_pos.get(dline)
+                    if pos is not None:
+                        order_of.setdefault(pos[0], []).append(pos[1])
+                if case["conflicts"] != "none":
+                    idv = aj[act].get("_id")
+                    seen_ids = seen.setdefault(aj[act].get("_index"), [])
+                    is_conflict = act == "update" or idv in seen_ids
+                    if act == "update" and idv not in seen_ids:
+                        ctx.fail("conflict-id-not-seen", "an update refers to an id this worker has not emitted before", seen_ids[-5:], idv)
+                    if not is_conflict:
+                        seen_ids.append(idv)
+        # each group of co-located clients reads one contiguous slice of every file, in file order
+        for f, poss in order_of.items():
+            if not case.get("looped") and poss != list(range(poss[0], poss[0] + len(poss))):
+                ctx.fail("slice-not-contiguous", "a worker's documents of one file are not a contiguous range in file order", None, {"file": f, "positions": poss[:12]})
+        # per-worker stop count (ingest percentage)
+        if not case.get("looped"):
+            pctf = Fraction(case["pct"])
+            if pctf == 100:
+                ref = [p for _, p in real_bulks]
+            else:
+                # "its bulks" = what the same group issues without a percentage (independent of number_of_bulks)
+                with patched_random(Rec(random.Random(case["seed"] + 1), prob_float)):
+                    ref_src = make_source({"ingest-percentage": 100})
+                    ref = reference_bulks(ref_src, s, e, n, limit)
+            check_stop_count(ctx, ref, [p for _, p in real_bulks], pctf, case["conflicts"] == "none")
+            if m["r"]["total_bulks"] != len(real_bulks) and len(ref) >= len(real_bulks):
+                ctx.diff("total_bulks", m["r"]["total_bulks"], len(real_bulks))
+        # fresh ids are emitted once and in list order; conflict ids ⊆ earlier ids (checked above)
+        for seen_ids in seen.values():
+            if case["conflicts"] == "sequential" and seen_ids != sorted(seen_ids):
+                ctx.fail("fresh-ids-out-of-order", "fresh ids of sequential conflicts are not increasing", None, seen_ids[:10])
+            if len(set(seen_ids)) != len(seen_ids):
+                ctx.fail("fresh-id-twice", "a fresh id was emitted twice", None, None)
+    # ---- exactly once over all workers (full ingestion, no loop, no error) -----------------------
+    if outcome == "ok" and not case.get("looped") and Fraction(case["pct"]) == 100:
+        expected = []
+        fidx = 0
+        for ci, c in enumerate(mc):
+            for d in c:
+                if ci in keep:
+                    ls = files[d["fidx"]]
+                    if d["meta"]:
+                        expected += [(ls[2 * q], ls[2 * q + 1]) for q in range(d["docs"])]
+                    else:
+                        expected += [(None, l) for l in ls]
+        if case["conflicts"] != "none" and any(x[0] is None for x in all_pairs):
+            # update wrappers were normalised to canonical JSON; documents emitted under a conflicting id still count
+            norm = lambda pr: (None, json.dumps(json.loads(pr[1]), sort_keys=True))
+            if sorted(map(norm, all_pairs)) != sorted(map(norm, expected)):
+                ctx.fail("not-exactly-once", "multiset of documents over all bulks differs from the corpus", len(expected), len(all_pairs))
+        elif sorted(all_pairs, key=repr) != sorted(expected, key=repr):
+            miss = len(expected) - len(all_pairs)
+            ctx.fail("not-exactly-once", "multiset of (action, document) pairs over all bulks differs from the corpus",
+                     {"corpus_docs": len(expected)}, {"emitted": len(all_pairs), "missing": miss})
+    big = any(d["docs"] >= 25000 for c in mc for d in c)
+    ctx.count(f"{prefix}:big" if big else f"{prefix}:small")
+    ctx.count(f"{prefix}:conflicts=" + case["conflicts"])
+    ctx.count(f"{prefix}:workers=%d" % len(case["workers"]))
+    ctx.sig([sorted(set(json.dumps(t) for t in tags)), sorted(kinds), len(case["workers"]) > 1, case["batch"] > case["bulk"],
+             Fraction(case["pct"]) == 100, case["conflicts"], outcome, big] + list(extra_sig), nontrivial=any_bulk)
+
+
+# ---------------------------------------------------------------------------------------------
+# stream: spec — track specification (JSON) -> TrackSpecificationReader -> set_absolute_data_path ->
+# operation_parameters -> BulkIndexParamSource: corpus-level defaults and document-level settings
+# ---------------------------------------------------------------------------------------------
+def gen_spec(ctx):
+    rng = ctx.rng
+    for base_case in gen_files(ctx):
+        case = dict(base_case)
+        if any(f["docs"] >= 25000 for c in case["corpora"] for f in c):
+            for c in case["corpora"]:
+                for f in c:
+                    f["docs"] = min(f["docs"], 97)
+        # conflicts need files without action lines; keep that dimension to the files stream
+        case["conflicts"] = "none"
+        for k in ("prob", "on_conflict", "recency", "defaults"):
+            case.pop(k, None)
+        case["looped"] = False
+        mode = rng.choice(["one-index", "one-index", "indices", "indices", "one-stream", "streams", "none"])
+        nidx = {"one-index": 1, "indices": rng.choice([2, 3])}.get(mode, 0)
+        nds = {"one-stream": 1, "streams": 2}.get(mode, 0)
+        if rng.random() < 0.03:
+            nidx, nds = 1, 1                                   # both: rejected
+        case["indices"], case["streams"] = nidx, nds
+        levels = []
+        for corpus in case["corpora"]:
+            cmeta = rng.choice([None, None, True, True, False])
+            lvl = {"meta": cmeta, "idx": None, "ds": None, "format": rng.choice([None, None, "bulk"]),
+                   "base_url": rng.choice([None, None, "http://benchmarks.example.org/corpora"])}
+            if nidx and rng.random() < (0.3 if nidx == 1 else 0.6):
+                lvl["idx"] = rng.randrange(nidx)
+            if nds and rng.random() < (0.3 if nds == 1 else 0.6):
+                lvl["ds"] = rng.randrange(nds)
+            levels.append(lvl)
+            for f in corpus:
+                # the FILE: with or without action lines; then a legal spelling of that fact on the two levels
+                phys = rng.random() < (0.5 if cmeta else 0.3)
+                if mode == "none":
+                    phys = phys or rng.random() < 0.85   # without any target only files with action lines are legal
+                f["meta"] = phys
+                default = bool(cmeta) if cmeta is not None else False
+                if phys == default and rng.random() < 0.6:
+                    f["s_meta"] = None
+                else:
+                    f["s_meta"] = phys
+                f["s_idx"] = f["s_ds"] = None
+                r = rng.random()
+                if nidx and (r < 0.35 or (nidx > 1 and lvl["idx"] is None and r < 0.9)):
+                    f["s_idx"] = rng.randrange(nidx)
+                if nds and (r < 0.35 or (nds > 1 and lvl["ds"] is None and r < 0.9)):
+                    f["s_ds"] = rng.randrange(nds)
+                if rng.random() < 0.03:
+                    f["s_ds" if nidx else "s_idx"] = 0       # a target of the wrong kind: rejected
+                f["s_format"] = rng.choice([None, None, "bulk"])
+                f["ds"] = f["type"] = False
+        case["levels"] = levels
+        yield case
+
+
+def spec_document(case, tmp, overrides=None):
+    """the track specification of the case (what json.load of track.json gives) + the files on disk"""
+    corpora = []
+    fidx = 0
+    for ci, (corpus, lvl) in enumerate(zip(case["corpora"], case["levels"])):
+        c = {"name": f"corpus{ci}"}
+        if lvl["meta"] is not None:
+            c["includes-action-and-meta-data"] = lvl["meta"]
+        if lvl["idx"] is not None:
+            c["target-index"] = f"idx{lvl['idx']}"
+        if lvl["ds"] is not None:
+            c["target-data-stream"] = f"ds{lvl['ds']}"
+        if lvl["format"]:
+            c["source-format"] = lvl["format"]
+        if lvl["base_url"]:
+            c["base-url"] = lvl["base_url"]
+        docs = []
+        for f in corpus:
+            d = {"source-file": f"f{fidx}.json", "document-count": f["docs"]}
+            if f["s_meta"] is not None:
+                d["includes-action-and-meta-data"] = f["s_meta"]
+            if f["s_idx"] is not None:
+                d["target-index"] = f"idx{f['s_idx']}"
+            if f["s_ds"] is not None:
+                d["target-data-stream"] = f"ds{f['s_ds']}"
+            if f["s_format"]:
+                d["source-format"] = f["s_format"]
+            docs.append(d)
+            fidx += 1
+        c["documents"] = docs
+        corpora.append(c)
+    op = {"name": "bulk-it", "operation-type": "bulk"}
+    op.update(worker_params(case))
+    op.update(overrides or {})
+    spec = {"description": "generated", "corpora": corpora,
+            "challenges": [{"name": "only", "default": True, "schedule": [{"operation": op, "clients": case["n"]}]}]}
+    if case["indices"]:
+        spec["indices"] = [{"name": f"idx{i}"} for i in range(case["indices"])]
+    if case["streams"]:
+        spec["data-streams"] = [{"name": f"ds{i}"} for i in range(case["streams"])]
+    return spec
+
+
+def run_spec(ctx, case):
+    from esrally import config, track
+    from esrally.track import loader
+    from esrally.utils import io
+
     tmp = tempfile.mkdtemp(prefix="c03-")
     try:
-        files, targets, rc, mc = build_tree(tmp, case)
-        # BulkIndexParamSource.used_corpora drops corpora without documents
-        keep = [i for i, c in enumerate(mc) if sum(d["docs"] for d in c) > 0]
-        mcorp = [[{k: d[k] for k in ("lines", "docs", "meta", "ds")} for d in mc[i]] for i in keep]
-        # the driver numbers files consecutively over the corpora it is given
-        remap = {}
-        j = 0
-        for i in keep:
-            for d in mc[i]:
-                remap[j] = d["fidx"]
-                j += 1
-        mfiles = {j: files[f] for j, f in remap.items()}
-        mtargets = {j: targets[f] for j, f in remap.items()}
-        n = case["n"]
-        rng = random.Random(case["seed"])
-        prob_float = None
-        if case["conflicts"] != "none":
-            prob_float = 25.0 if case.get("defaults") else float(Fraction(case["prob"]))
-        # document line (raw, and as canonical JSON) -> (file, document number) where that is unique in the whole corpus
-        def unique_index(keyfn):
-            idx, dup = {}, set()
-            for f, ls in files.items():
-                step = 2 if any(d["fidx"] == f and d["meta"] for c in mc for d in c) else 1
-                for q, l in enumerate(ls[step - 1::step]):
-                    try:
-                        key = keyfn(l)
-                    except ValueError:
-                        continue
-                    if key in idx or key in dup:
-                        dup.add(key)
-                        idx.pop(key, None)
-                    else:
-                        idx[key] = (f, q)
-            # only files all of whose documents can be located
-            full = {f for f, ls in files.items()
-                    if sum(1 for v in idx.values() if v[0] == f) == len(ls) // (2 if any(d["fidx"] == f and d["meta"] for c in mc for d in c) else 1)}
-            return {k: v for k, v in idx.items() if v[0] in full}
+        # the files, physically as the case says; <data cache>/<corpus name>/<file>
+        files, mc, mspecs = {}, [], []
+        fidx = 0
+        for ci, (corpus, lvl) in enumerate(zip(case["corpora"], case["levels"])):
+            os.makedirs(os.path.join(tmp, "cache", f"corpus{ci}"))
+            mdocs, sdocs = [], []
+            for f in corpus:
+                lines = make_lines(fidx, f["style"], f["docs"], f["meta"], f["nl"], case["seed"])
+                path = os.path.join(tmp, "cache", f"corpus{ci}", f"f{fidx}.json")
+                with open(path, "wb") as fh:
+                    fh.write(b"".join(lines))
+                io.prepare_file_offset_table(path)
+                files[fidx] = lines
+                mdocs.append({"lines": len(lines), "docs": f["docs"], "meta": f["meta"], "ds": False, "fidx": fidx})
+                sdocs.append({"lines": len(lines), "docs": f["docs"], "meta": f["s_meta"], "idx": f["s_idx"], "ds": f["s_ds"]})
+                fidx += 1
+            mc.append(mdocs)
+            mspecs.append({"meta": lvl["meta"], "idx": lvl["idx"], "ds": lvl["ds"], "docs": sdocs})
+        m = ctx.model("bulk", "spec", {"specs": mspecs, "indices": list(range(case["indices"])), "streams": list(range(case["streams"]))})
 
-        line_pos = unique_index(lambda l: l)
-        json_pos = unique_index(lambda l: json.dumps(json.loads(l), sort_keys=True))
-        eligible = {v[0] for v in line_pos.values()} & {v[0] for v in json_pos.values()}
-        line_pos = {k: v for k, v in line_pos.items() if v[0] in eligible}
-        json_pos = {k: v for k, v in json_pos.items() if v[0] in eligible}
-        all_pairs = []      # (action line or None, document line) over all workers — for the exactly-once oracle
-        total_docs = sum(d["docs"] for c in mc for d in c)
-        any_bulk = False
-        kinds = set()
-        tags = []
-        outcome = "ok"
-        for (s, e) in case["workers"]:
-            rec = Rec(rng, prob_float)
-            with patched_random(rec):
-                src = params.BulkIndexParamSource(track.Track(name="t", corpora=rc), worker_params(case))
-                limit = 3 * (total_docs + 5) + 50
-                crash = None
-                try:
-                    order, calls, events, unfinished, crash = drive_worker(rng, src, s, e, n, limit if not case.get("looped") else min(limit, 60))
-                    err = None
-                except (exceptions.RallyError, IndexError, ZeroDivisionError) as ex:
-                    err = type(ex).__name__
-            if rec.bad:
-                raise HarnessError("; ".join(rec.bad))
-            margs = dict(model_cfg(case), corpora=mcorp, n=n, partitions=order if err is None else list(range(s, e + 1)),
-                         calls=calls if err is None else [s], oracle=rec.as_json())
-            m = ctx.model("bulk", "worker", margs)
-            tags.append(m.get("tags"))
-            if err is not None:
-                outcome = err
-                if m.get("err") != err:
-                    ctx.diff("worker-error", m, err)
-                continue
-            if crash is not None:
-                outcome = crash
-                if m.get("err") != crash:
-                    ctx.diff("worker-error", m, crash)
-                report_zero_division(ctx, {"clients": [s, e], "of": n, "calls": calls})
-                continue
-            if "err" in m:
-                ctx.diff("worker-error", m, "no error")
-                continue
-            if unfinished and not case.get("looped"):
-                ctx.fail("does-not-stop", "clients still get bulks after 3x the corpus size", None, len(calls))
-            mout = m["r"]["out"]
-            real_bulks = [(c, p) for c, p in events if p is not None]
-            if [c for c, _ in real_bulks] != [x[0] for x in mout]:
-                ctx.diff("who-gets-a-bulk", [x[0] for x in mout], [c for c, _ in real_bulks])
-            seen = {}  # target index -> fresh ids emitted so far by this worker
-            order_of = {}  # file -> positions of its document lines in the order this worker emitted them
-            for k, (c, p) in enumerate(real_bulks):
-                any_bulk = True
-                blines = split_body(p["body"])
-                if k < len(mout):
-                    mdocs, mitems = mout[k][1]
-                    d = None
-                    if mdocs != p["bulk-size"]:
-                        d = f"bulk {k}: bulk-size model {mdocs}, impl {p['bulk-size']}"
-                    d = d or check_items(ctx, f"bulk {k}", mitems, blines, mfiles, mtargets)
-                    if d:
-                        ctx.diff("bulk-body", d, None)
-                # ---- direct oracle on the real bulk -------------------------------------------------
-                if p["bulk-size"] > case["bulk"] or p["bulk-size"] <= 0:
-                    ctx.fail("bulk-over-size", "bulk-size outside (0, configured bulk size]", case["bulk"], p["bulk-size"])
-                if len(blines) != 2 * p["bulk-size"]:
-                    ctx.fail("pairing", "body is not bulk-size (action, document) pairs", 2 * p["bulk-size"], len(blines))
+        def load(overrides=None):
+            reader = loader.TrackSpecificationReader()
+            t = reader("generated", json.loads(json.dumps(spec_document(case, tmp, overrides))), tmp)
+            cfg = config.Config()
+            cfg.add(config.Scope.application, "benchmarks", "local.dataset.cache", os.path.join(tmp, "cache"))
+            loader.set_absolute_data_path(cfg, t)
+            return t
+
+        try:
+            t = load()
+            err = None
+        except loader.TrackSyntaxError:
+            err = "TrackSyntaxError"
+        # direct expectation from the raw specification: the most specific definition wins
+        exp_err = bool(case["indices"] and case["streams"])
+        targets = {}
+        for corpus, lvl in zip(mc, case["levels"]):
+            for d, f in zip(corpus, [f for c in case["corpora"] for f in c][corpus[0]["fidx"]:] if corpus else []):
+                if f["meta"]:
+                    targets[d["fidx"]] = (None, None, False)
                     continue
-                for q in range(0, len(blines), 2):
-                    a, dline = blines[q], blines[q + 1]
-                    try:
-                        aj = json.loads(a)
-                    except ValueError:
-                        aj = None
-                    if not (isinstance(aj, dict) and len(aj) == 1 and list(aj)[0] in ("index", "create", "update")
-                            and isinstance(aj[list(aj)[0]], dict) and a.endswith(b"\n")):
-                        ctx.fail("pairing", "line at an even position of the body is not an action-and-meta-data line", None, repr(a))
-                        continue
-                    act = list(aj)[0]
-                    kinds.add(act)
-                    if act == "update":
-                        try:
-                            dj = json.loads(dline)
-                            inner = dj["doc"]
-                        except (ValueError, KeyError, TypeError):
-                            ctx.fail("pairing", "update action not followed by a {\"doc\": …} line", None, repr(dline))
-                            continue
-                        all_pairs.append((None, json.dumps(inner, sort_keys=True)))
-                        pos = json_pos.get(json.dumps(inner, sort_keys=True))
-                        if pos is not None:
-                            order_of.setdefault(pos[0], []).append(pos[1])
-                    else:
-                        all_pairs.append((a if "_id" in aj[act] and case["conflicts"] == "none" else None, dline))
-                        pos = line_pos.get(dline)
-                        if pos is not None:
-                            order_of.setdefault(pos[0], []).append(pos[1])
-                    if case["conflicts"] != "none":
-                        idv = aj[act].get("_id")
-                        seen_ids = seen.setdefault(aj[act].get("_index"), [])
-                        is_conflict = act == "update" or idv in seen_ids
-                        if act == "update" and idv not in seen_ids:
-                            ctx.fail("conflict-id-not-seen", "an update refers to an id this worker has not emitted before", seen_ids[-5:], idv)
-                        if not is_conflict:
-                            seen_ids.append(idv)
-            # each group of co-located clients reads one contiguous slice of every file, in file order
-            for f, poss in order_of.items():
-                if not case.get("looped") and poss != list(range(poss[0], poss[0] + len(poss))):
-                    ctx.fail("slice-not-contiguous", "a worker's documents of one file are not a contiguous range in file order", None, {"file": f, "positions": poss[:12]})
-            # per-worker stop count (ingest percentage)
-            if not case.get("looped"):
-                pctf = Fraction(case["pct"])
-                if pctf == 100:
-                    ref = [p for _, p in real_bulks]
-                else:
-                    # "its bulks" = what the same group issues without a percentage (independent of number_of_bulks)
-                    with patched_random(Rec(random.Random(case["seed"] + 1), prob_float)):
-                        ref_src = params.BulkIndexParamSource(track.Track(name="t", corpora=rc), dict(worker_params(case), **{"ingest-percentage": 100}))
-                        ref = reference_bulks(ref_src, s, e, n, limit)
-                check_stop_count(ctx, ref, [p for _, p in real_bulks], pctf, case["conflicts"] == "none")
-                if m["r"]["total_bulks"] != len(real_bulks) and len(ref) >= len(real_bulks):
-                    ctx.diff("total_bulks", m["r"]["total_bulks"], len(real_bulks))
-            # fresh ids are emitted once and in list order; conflict ids ⊆ earlier ids (checked above)
-            for seen_ids in seen.values():
-                if case["conflicts"] == "sequential" and seen_ids != sorted(seen_ids):
-                    ctx.fail("fresh-ids-out-of-order", "fresh ids of sequential conflicts are not increasing", None, seen_ids[:10])
-                if len(set(seen_ids)) != len(seen_ids):
-                    ctx.fail("fresh-id-twice", "a fresh id was emitted twice", None, None)
-        # ---- exactly once over all workers (full ingestion, no loop, no error) -----------------------
-        if outcome == "ok" and not case.get("looped") and Fraction(case["pct"]) == 100:
-            expected = []
-            fidx = 0
-            for ci, c in enumerate(mc):
-                for d in c:
-                    if ci in keep:
-                        ls = files[d["fidx"]]
-                        if d["meta"]:
-                            expected += [(ls[2 * q], ls[2 * q + 1]) for q in range(d["docs"])]
-                        else:
-                            expected += [(None, l) for l in ls]
-            if case["conflicts"] != "none" and any(x[0] is None for x in all_pairs):
-                # update wrappers were normalised to canonical JSON; documents emitted under a conflicting id still count
-                norm = lambda pr: (None, json.dumps(json.loads(pr[1]), sort_keys=True))
-                if sorted(map(norm, all_pairs)) != sorted(map(norm, expected)):
-                    ctx.fail("not-exactly-once", "multiset of documents over all bulks differs from the corpus", len(expected), len(all_pairs))
-            elif sorted(all_pairs, key=repr) != sorted(expected, key=repr):
-                miss = len(expected) - len(all_pairs)
-                ctx.fail("not-exactly-once", "multiset of (action, document) pairs over all bulks differs from the corpus",
-                         {"corpus_docs": len(expected)}, {"emitted": len(all_pairs), "missing": miss})
-        big = any(d["docs"] >= 25000 for c in mc for d in c)
-        ctx.count("files:big" if big else "files:small")
-        ctx.count("files:conflicts=" + case["conflicts"])
-        ctx.count("files:workers=%d" % len(case["workers"]))
-        ctx.sig([sorted(set(json.dumps(t) for t in tags)), sorted(kinds), len(case["workers"]) > 1, case["batch"] > case["bulk"],
-                 Fraction(case["pct"]) == 100, case["conflicts"], outcome, big], nontrivial=any_bulk)
+                # corpus-level targets only exist for the kind of target the track declares; one declared name is the default
+                c_idx = (lvl["idx"] if lvl["idx"] is not None else (0 if case["indices"] == 1 else None)) if case["indices"] else None
+                c_ds = (lvl["ds"] if lvl["ds"] is not None else (0 if case["streams"] == 1 else None)) if case["streams"] else None
+                idx = f["s_idx"] if f["s_idx"] is not None else c_idx
+                dsn = f["s_ds"] if f["s_ds"] is not None else c_ds
+                # legal: exactly one unambiguous target, of the kind the track declares (a track that declares neither may name an index)
+                if (dsn is not None and case["indices"]) or (idx is not None and case["streams"]) or (idx is None and dsn is None):
+                    exp_err = True
+                targets[d["fidx"]] = (f"idx{idx}", None, False) if idx is not None else (f"ds{dsn}", None, True)
+        if err or "err" in m:
+            if m.get("err") != err:
+                ctx.diff("spec-error", m, err)
+            if err and not exp_err:
+                ctx.fail("legal-spec-rejected", "a legal track specification is rejected", "a track", err)
+            ctx.count("spec:rejected")
+            ctx.sig(["spec", "err", err, m.get("tags")])
+            return
+        if exp_err:
+            ctx.fail("illegal-spec-accepted", "a specification whose document sets have no unambiguous target is accepted", "TrackSyntaxError", "a track")
+        resolved = m["r"]
+        loaded = [[{"meta": bool(d.includes_action_and_meta_data), "ds": (not d.target_index) and bool(d.target_data_stream),
+                    "docs": d.number_of_documents} for d in c.documents] for c in t.corpora]
+        if loaded != [[{k: d[k] for k in ("meta", "ds", "docs")} for d in c] for c in resolved]:
+            ctx.diff("loaded document sets", resolved, loaded)
+        # the property's own statement on what was loaded: a file is read the way it is physically laid out
+        for c, corpus in zip(t.corpora, mc):
+            for d, x in zip(c.documents, corpus):
+                if bool(d.includes_action_and_meta_data) != x["meta"]:
+                    ctx.fail("spec-flag-not-most-specific", "a document set is not loaded with the action-and-meta-data setting of its most specific "
+                             "declaration (document set, else corpus, else false)", x["meta"], d.includes_action_and_meta_data)
+                if not x["meta"]:
+                    name, _, is_ds = targets[x["fidx"]]
+                    got = d.target_data_stream if is_ds else d.target_index
+                    if got != name or (is_ds and d.target_index) or (not is_ds and d.target_data_stream):
+                        ctx.fail("spec-target-not-most-specific", "a document set is not loaded with the target of its most specific declaration",
+                                 name, [d.target_index, d.target_data_stream])
+        for corpus, rcorp in zip(mc, resolved):
+            for x, r in zip(corpus, rcorp):
+                x["m_meta"], x["m_ds"] = r["meta"], r["ds"]
+                x["ds"] = targets[x["fidx"]][2]
+
+        def make_source(extra=None):
+            tt = load(extra) if extra else t
+            return track.operation_parameters(tt, tt.challenges[0].schedule[0])
+
+        tags = m.get("tags") or []
+        for tg in tags:
+            ctx.count("spec:" + tg)
+        drive_and_judge(ctx, case, files, targets, mc, make_source, "spec", [tags])
     finally:
         shutil.rmtree(tmp, ignore_errors=True)
 
@@ -1650,6 +1870,7 @@ def run_e2e(ctx, case):
 STREAMS = [
     Stream("arith", gen_arith, run_arith, quick=8000, thorough=400000, shards=8),
     Stream("files", gen_files, run_files, quick=640, thorough=12000, shards=16),
+    Stream("spec", gen_spec, run_spec, quick=480, thorough=10000, shards=16),
     Stream("race", gen_race, run_race, quick=480, thorough=10000, shards=16),
     Stream("e2e", gen_e2e, run_e2e, quick=240, thorough=4000, shards=16),
     Stream("reader", gen_reader, run_reader, quick=1600, thorough=60000, shards=8),
